@@ -286,4 +286,27 @@ def r12_4(ctx: Ctx) -> RuleResult:
     return rr
 
 
-RULES = [r12_1, r12_2, r12_3, r12_4]
+def r12_8(ctx: Ctx) -> RuleResult:
+    """The query iterator runs over the full match list - the matches finditer() gives for the same path, data and
+    filter context.  A necessary condition that is visible in the code: every entry point named `query` hands each of
+    its arguments on; a parameter that is never read on the way to the result (a `filter_context` that is not carried
+    over when the function is re-routed) is replaced by some default, and every chain built on the query is wrong."""
+    rr = RuleResult("R12.8", "the `query` entry points use every argument they are given", floor=6)
+    for cname in ("jsonpath.env.JSONPathEnvironment", "jsonpath.path.JSONPath", "jsonpath.path.CompoundJSONPath"):
+        cls = ctx.repo.require_class(cname)
+        fn = ctx.repo.find_method(cls, "query")
+        if fn is None:
+            raise AnalysisError(f"R12.8: {cname}.query not found")
+        a = fn.node.args
+        params = [x.arg for x in a.posonlyargs + a.args + a.kwonlyargs][1:]
+        loads = {n.id for n in ast.walk(fn.node) if isinstance(n, ast.Name) and isinstance(n.ctx, ast.Load)}
+        for p_ in params:
+            if p_ in loads:
+                rr.ok(fn.loc(), f"{fn.qualname}: `{p_}` is handed on")
+            else:
+                rr.bad(fn, fn.node, f"{fn.qualname} never reads its parameter `{p_}`: the query iterator does not run over the matches for the "
+                       f"caller's {p_} (finditer() with the same arguments gives other matches)", construct=f"{fn.name}: parameter {p_} dropped")
+    return rr
+
+
+RULES = [r12_1, r12_2, r12_3, r12_4, r12_8]
